@@ -214,6 +214,14 @@ def cleanup_bounds(cx):
                         one = [k for k in po.consts if k.get("v") == "1"]
                         if "wal_number" in po.field_names() and one and any(x.startswith("Add") for x in po.ops):
                             via_upvar = True
+        if body.kind in ("closure", "coroutine"):
+            # a DEFERRED clean-up (spawned task) runs at an unknown later time: a bound computed when the task was created can
+            # be stale -- a restore may have rewound the WAL numbering in between, and the stale bound then covers the rewound,
+            # active segment.  The task must read the bound (the manifest's log_number) when it runs.
+            cx.check(via_manifest, "the deferred WAL clean-up in `%s` reads its bound from the manifest when it runs" % f.fn_of(body).id,
+                     "deferred-cleanup-stale-bound|%s" % f.fn_of(body).id, c.where(),
+                     "the WAL clean-up task spawned by `%s` uses a bound captured at spawn time: if restore_from_checkpoint rewinds the WAL numbering before the task runs, it "
+                     "deletes the rewound, active segment and commits acknowledged after the restore are lost at the next open" % f.fn_of(body).id)
         cx.check(via_manifest or via_upvar, "cleanup_old_segments bound comes from the manifest's log_number or entry.wal_number + 1",
                  "cleanup-bound|%s" % f.fn_of(body).id, c.where(),
                  "cleanup_old_segments is called in `%s` with a bound that is neither the manifest log_number nor flushed wal_number + 1: "
@@ -459,7 +467,9 @@ def _replay_truncates_torn_tail(cx):
     f = cx.f
     rb = f.body("wal::recovery::replay_wal")
     rd = [c for c in rb.calls if c.bb in rb.live and c.names & {"wal::reader::Reader::read", "Reader::read"}]
-    cuts = [c for c in rb.calls if c.bb in rb.live and (c.names & {"std::fs::File::set_len"} or f.call_must_reach(c, {"std::fs::File::set_len"}))]
+    # (directly, or through a helper of the recovery module that shortens the file when it is longer than the valid length)
+    cuts = [c for c in rb.calls if c.bb in rb.live and (c.names & {"std::fs::File::set_len"} or f.call_must_reach(c, {"std::fs::File::set_len"})
+            or (f.call_may_reach(c, {"std::fs::File::set_len"}) and any(t.startswith("wal::recovery::") for t in c.targets)))]
     if not rd or not cuts:
         return False
     good = False
